@@ -89,4 +89,10 @@ CLAIMED = {
               "Fault indices are exhaustive per history (<=200); histories are sampled."),
         note="one fault per run; the wrapper for the TransactionStore rejects operations inside the transaction (the mem store itself cannot fail); examples/s3 is not buildable offline, its Store shape is reproduced by the harness's plain store",
     ),
+    "C10": dict(
+        technique="model-based (state-machine) property testing with rapid; differential oracle = twin handles/calls on an identical source tree; call-counting wrapper on the source for the 'no second read' clause",
+        text=("Generated source trees, RetainData policies, cache-store kinds (full mem.FS / OpenFile+Mkdir only) and source handle flavours (with/without Seek); generated sequences of opens into slots, reads, seeks, stats, paged directory reads and closes are mirrored on a twin source; "
+              "a counting wrapper checks that once a retained file is cached neither later opens nor reads through their handles reach the source. Sampled exploration."),
+        note="the source is immutable during a case (the cache's documented precondition); modification times are not compared",
+    ),
 }
